@@ -88,6 +88,16 @@ impl Progress for FileProgress {
         let mut f = self.f.lock().unwrap();
         let _ = writeln!(f, "F\t{fam}\t{chunk}\t{}", case.to_string().replace('\n', " "));
     }
+    fn heartbeat(&self) {
+        // at most one line every ten seconds
+        static LAST: Mutex<Option<std::time::Instant>> = Mutex::new(None);
+        let mut last = LAST.lock().unwrap();
+        if last.map(|t| t.elapsed().as_secs() >= 10).unwrap_or(true) {
+            *last = Some(std::time::Instant::now());
+            let mut f = self.f.lock().unwrap();
+            let _ = writeln!(f, "H");
+        }
+    }
 }
 
 fn failure_json(f: &Failure) -> Value {
